@@ -238,12 +238,12 @@ fn expectation(ring: &Ring, states: &[NodeState], cfg: &PolicyCfg, replicas_ring
     let mut class = vec![None; n];
     let mut why = vec![""; n];
     for i in 0..n {
-        if !owners.contains(&i) {
-            why[i] = "owns no token";
-            continue;
-        }
         if states[i] == NodeState::Disabled {
             why[i] = "excluded by the host filter";
+            continue;
+        }
+        if !owners.contains(&i) {
+            why[i] = "owns no token";
             continue;
         }
         if pdc.is_some() && !cfg.failover && !is_local(i) {
@@ -279,6 +279,10 @@ fn expectation(ring: &Ring, states: &[NodeState], cfg: &PolicyCfg, replicas_ring
 /// Judge one sequence of nodes (a whole plan, or a whole fallback) against the expectation.
 fn judge(seq: &[usize], exp: &Expect, what: &str) -> Vec<(String, String)> {
     let mut bad = Vec::new();
+    // the statement speaks about token-owning nodes; a node without tokens is neither demanded nor
+    // forbidden - unless it is disabled
+    let seq: Vec<usize> = seq.iter().copied().filter(|i| exp.why_excluded.get(*i).copied() != Some("owns no token")).collect();
+    let seq: &[usize] = &seq;
     let mut seen = BTreeSet::new();
     let mut dup_reported = false;
     for &i in seq {
@@ -660,6 +664,7 @@ fn run_case(env: &Env, tally: &mut Tally, cl: &Cluster, tablet: Option<(&Cluster
             }
             let best = exp.class.iter().flatten().min().copied();
             match exp.class.get(i).copied().flatten() {
+                None if exp.why_excluded.get(i).copied() == Some("owns no token") => {} // neither demanded nor forbidden (e.g. a tablet replica without tokens)
                 None => report("pick:excluded-node", format!("pick names node {i}, which must not be in the plan ({})", exp.why_excluded.get(i).copied().unwrap_or("?"))),
                 Some(c) if Some(c) != best => report("pick:not-best-group", format!("pick names node {i} of group {c:?} although group {best:?} is not empty")),
                 Some(_) => {
@@ -957,9 +962,27 @@ fn main() {
     }
     let env_ref = &env;
     let legs_ref = &legs;
-    vcore::par::for_each(r.args.jobs, 1, topos.iter().enumerate().rev().map(|(i, t)| (i, t)), |(i, t)| {
-        let names = &SPELLINGS[0];
-        run_cluster(env_ref, &t.concrete(names), names.absent_dc, i as u64, legs_ref, Some(&tablet_dims));
+    // every topology, and for the small ones also a variant with one more peer that owns no token
+    // (known to the cluster state, absent from the ring)
+    let names = &SPELLINGS[0];
+    let mut clusters: Vec<Concrete> = topos.iter().map(|t| t.concrete(names)).collect();
+    let zero_token_upto = if thorough { 3 } else { 2 };
+    let mut zero_token_variants = 0u64;
+    for t in &topos {
+        if t.n() <= zero_token_upto && t.slots() == t.n() {
+            let mut c = t.concrete(names);
+            c.nodes.push(topo::CNode { dc: Some(names.dcs[0].to_string()), rack: Some(names.racks[0].to_string()), tokens: vec![] });
+            clusters.push(c);
+            zero_token_variants += 1;
+        }
+    }
+    r.counters.add("clusters_with_a_peer_that_owns_no_token", zero_token_variants);
+    // biggest first, so that the long ones do not form the tail
+    let mut order: Vec<usize> = (0..clusters.len()).collect();
+    order.sort_by_key(|i| std::cmp::Reverse(clusters[*i].nodes.len()));
+    let clusters_ref = &clusters;
+    vcore::par::for_each(r.args.jobs, 1, order.into_iter(), |i| {
+        run_cluster(env_ref, &clusters_ref[i], names.absent_dc, i as u64, legs_ref, Some(&tablet_dims));
     });
     sink.flush(&r);
     let sigs = env.signatures.lock().unwrap().clone();
